@@ -46,7 +46,7 @@ func storedProjector(r rel.Relation) ([]int, bool) {
 }
 
 // layout reports the stored layout of a Relation: row[p[i]] is the value of attrs[i].
-func layout(r rel.Relation) map[string]any {
+func layout04(r rel.Relation) map[string]any {
 	attrs := []string(r.AttrsName())
 	p, ok := storedProjector(r)
 	out := map[string]any{"attrs": append([]string{}, attrs...), "count": r.Count()}
@@ -137,8 +137,8 @@ func init() {
 			out["gb"] = dump(sb, 0)
 			ea, eb = sa, sb
 		} else {
-			out["a"] = layout(a)
-			out["b"] = layout(b)
+			out["a"] = layout04(a)
+			out["b"] = layout04(b)
 		}
 		type res struct {
 			v     rel.Value
